@@ -3,81 +3,77 @@ import LocustModel.Codec.Ops
 import LocustModel.Codec.Ints
 import LocustModel.Codec.Strings
 import LocustModel.Codec.ColumnBuffer
+import LocustModel.Lemmas.C01Ops
 import LocustModel.Lemmas.C01Ints
+import LocustModel.Lemmas.C01Strings
+import LocustModel.Lemmas.C01Present
+import LocustModel.Lemmas.C01Column
 /-
   C01 — ingested values come back unchanged from a plain SELECT.  Property theorems only.
-  All statements are for lists of ANY length and values over all of i64 / all byte strings.
+  All statements are for lists of ANY length and values over all of i64 / all byte strings / all f64 bit
+  patterns.  `dec` / `cp` stand for lz4 / pco (assumed lossless, `CompOk`), `cv` for Rust std's
+  `i as f64`, `i64::to_string`, `f64::to_string` (`ConvOk`: their output is shorter than 2^24 bytes).
 -/
 namespace LM.C01
 open LM LM.Codec LM.Bitmap
 
-/-! ## Integers: `IntColBuffer::push*` → `finalize` → `IntegerColumn::new_boxed` → decode program -/
+/-! ## The whole column path -/
 
-/-- Full-strength statement for one integer buffer: whatever i64 values were pushed (NULL slots hold the
-    placeholder 0 and are masked by the present map `null`), building the column does not panic and the
-    decode program returns exactly the pushed values, paired with the same present map. -/
-def C01_ints_statement : Prop :=
-  ∀ (dec : Section → Section) (xs : List Int) (null : Option (List Nat)),
-    xs ≠ [] → (∀ x ∈ xs, inI64 x) →
-    ∃ c, (IntBuf.pushAll {} xs).finalize null = .ok c ∧ decode dec c = .ok ⟨.i64 xs, null⟩ ∧ c.len = xs.length
+/-- **C01, one column.**  For every sequence of pushes that ingestion can issue on one `ColumnBuffer`
+    (`push_ints` / `push_floats` / `push_strings` / `push_nulls` in any order and any sizes, i.e. every batch
+    representation, every null pattern, every type mix), over the whole value domain (all of i64, all f64 bit
+    patterns, all byte strings shorter than 2^24 bytes), for either choice of compressing section 0:
+    `finalize` does not panic, the decode program does not panic, and the cells a plain SELECT reads are
+    exactly the cells of the specification — the supplied values in order, NULL exactly where nothing was
+    supplied, with the documented degradation int+float → float, anything+string → string.
+    (`specColumn cv ops ≠ []`: a buffer with zero rows is never turned into a partition.) -/
+theorem C01_column (cv : Conv) (hcv : ConvOk cv) (cp : Compressor) (hcp : CompOk cp) (use : Bool)
+    (ops : List Op) (hops : ∀ op ∈ ops, OpOk op) (hrows : specColumn cv ops ≠ []) :
+    columnCells cv cp use ops = .ok (specColumn cv ops) := by
+  obtain ⟨cb, h1, hrel⟩ := rel_applyAll cv hcv (rel_default cv) ops hops
+  obtain ⟨col, h2, _, h3⟩ := rel_finalize cv hcv cp hcp use hrel hrows
+  simp only [columnCells, h1, bind_ok, h2, h3, specColumn]
 
-/-- What holds for the code as it is: the round trip is exact — every width (u8/u16/u32/i64), with and
-    without offset, delta-coded or not, nullable or not, no arithmetic overflow on the way — PROVIDED the two
-    open defects are not hit: (i) delta coding chosen although an adjacent difference does not fit i64,
-    (ii) minimum `i64::MIN` together with maximum `0` in a column that is not delta-coded. -/
-theorem C01_ints_roundtrip_partial (dec : Section → Section) (xs : List Int) (null : Option (List Nat))
-    (hne : xs ≠ []) (hv : ∀ x ∈ xs, inI64 x)
-    (hD : (IntBuf.pushAll {} xs).deltaEncode = true → DeltaOk xs)
-    (hI : (IntBuf.pushAll {} xs).deltaEncode = false → ¬ IntervalBad xs) :
-    ∃ c, (IntBuf.pushAll {} xs).finalize null = .ok c ∧ decode dec c = .ok ⟨.i64 xs, null⟩ ∧
-      c.len = xs.length :=
-  intBuf_roundtrip dec xs null hne hv hD hI
+/-- non-vacuity: a type-mixed, nullable, compressed column (ints, a NULL gap, a float, strings, ints again). -/
+example : columnCells demoConv demoComp true
+      [.ints [5, -9223372036854775808, 9223372036854775806], .nulls 2, .floats [0x8000000000000000],
+       .strs [[104, 105], []], .ints [7]] =
+    .ok (specColumn demoConv
+      [.ints [5, -9223372036854775808, 9223372036854775806], .nulls 2, .floats [0x8000000000000000],
+       .strs [[104, 105], []], .ints [7]]) :=
+  C01_column demoConv demoConv_ok demoComp demoComp_ok true _
+    (by intro op hop; simp at hop; rcases hop with h | h | h | h | h <;> subst h <;> simp [OpOk] <;> decide)
+    (by decide)
 
-/-- Cells of a decoded nullable integer column: value where the bit is set, NULL elsewhere. -/
-theorem C01_ints_cells (dec : Section → Section) (xs : List Int) (null : Option (List Nat))
-    (hne : xs ≠ []) (hv : ∀ x ∈ xs, inI64 x)
-    (hD : (IntBuf.pushAll {} xs).deltaEncode = true → DeltaOk xs)
-    (hI : (IntBuf.pushAll {} xs).deltaEncode = false → ¬ IntervalBad xs) :
-    ∃ c, (IntBuf.pushAll {} xs).finalize null = .ok c ∧
-      decodeCells dec c = .ok (cellsOf ⟨.i64 xs, null⟩) := by
-  obtain ⟨c, h1, h2, _⟩ := intBuf_roundtrip dec xs null hne hv hD hI
-  exact ⟨c, h1, by simp [decodeCells, h2]⟩
+/-- The finalized column has exactly as many rows as cells were supplied (no row lost, none invented): the
+    condition `Partition::from_buffer` asserts for every column; and the buffer's own length is the number
+    of rows pushed. -/
+theorem C01_column_len (cv : Conv) (hcv : ConvOk cv) (ops : List Op) (hops : ∀ op ∈ ops, OpOk op)
+    (hrows : specColumn cv ops ≠ []) :
+    ∃ cb col, ColBuf.applyAll cv {} ops = .ok cb ∧ cb.finalize cv = .ok col ∧
+      col.len = (specColumn cv ops).length ∧ cb.length = (specColumn cv ops).length := by
+  obtain ⟨cb, h1, hrel⟩ := rel_applyAll cv hcv (rel_default cv) ops hops
+  obtain ⟨col, h2, h3, _⟩ := rel_finalize_raw cv hcv id hrel hrows
+  exact ⟨cb, col, h1, h2, h3, by simpa [flagsOf, specColumn] using hrel.inv.len⟩
 
-/-- Defect (i), witness `[-2, i64::MAX - 1]`: both steps count as increasing, delta coding is chosen and
-    `*curr -= previous` overflows (src/mem_store/integers.rs:27). -/
-theorem C01_ints_delta_refuted :
-    (IntBuf.pushAll {} [-2, 9223372036854775806]).finalize none = .error .overflow := by
-  rfl
+/-! ## The present bitmap -/
 
-/-- Defect (ii), witness `[i64::MIN, 0]` (equally `[i64::MIN, NULL]`, the NULL slot stores 0):
-    `(max - min) as u64` overflows because the guard is `max > 0`, not `max >= 0` (integers.rs:36). -/
-theorem C01_ints_interval_refuted :
-    (IntBuf.pushAll {} [-9223372036854775808, 0]).finalize none = .error .overflow := by
-  rfl
+/-- After ANY sequence of pushes: either no bitmap exists and no NULL was pushed so far, or bit `j` of the
+    bitmap is set exactly for the rows that received a value — for every `j`, in particular no bit at or
+    beyond the length is set (lengths 7/8/9/63/64/65 included), and every element of the bitmap is a byte. -/
+theorem C01_present_inv (cv : Conv) (ops : List Op) (cb : ColBuf) (h : ColBuf.applyAll cv {} ops = .ok cb) :
+    cb.length = (ops.flatMap Op.flags).length ∧
+    (cb.buffer = .empty → cb.present = none ∧ ∀ f ∈ ops.flatMap Op.flags, f = false) ∧
+    (cb.buffer ≠ .empty →
+      match cb.present with
+      | none => ∀ f ∈ ops.flatMap Op.flags, f = true
+      | some bm => Bitmap.Bytes bm ∧ ∀ j, isSet bm j = flagAt (ops.flatMap Op.flags) j) := by
+  have := ColBuf.inv_applyAll cv ColBuf.inv_default ops h
+  simp only [List.nil_append] at this
+  exact ⟨this.len, this.empty, this.typed⟩
 
-/-- Hence the full statement does not hold for the code as it is. -/
-theorem C01_ints_statement_refuted : ¬ C01_ints_statement := by
-  intro h
-  obtain ⟨c, hc, _⟩ := h id [-2, 9223372036854775806] none (by simp) (by
-    intro x hx; simp at hx; rcases hx with h | h <;> subst h <;> decide)
-  rw [C01_ints_delta_refuted] at hc
-  cases hc
-
-/-- The hypotheses of the partial theorem are satisfiable on non-trivial input (delta-coded, offset, nullable). -/
-example : ∃ c, (IntBuf.pushAll {} [1000, 1001, 1003, 0, 1007, 1008, 1009, 1010, 1011, 1012, 1013]).finalize (some [0xf7, 0x07]) = .ok c ∧
-    decode id c = .ok ⟨.i64 [1000, 1001, 1003, 0, 1007, 1008, 1009, 1010, 1011, 1012, 1013], some [0xf7, 0x07]⟩ := by
-  obtain ⟨c, h1, h2, _⟩ := C01_ints_roundtrip_partial id [1000, 1001, 1003, 0, 1007, 1008, 1009, 1010, 1011, 1012, 1013]
-    (some [0xf7, 0x07]) (by simp) (by intro x hx; simp at hx; rcases hx with h | h | h | h | h | h | h | h | h | h | h <;> subst h <;> decide)
-    (by intro _; decide) (by decide)
-  exact ⟨c, h1, h2⟩
-
-/-- The width ladder uses `<=` at 255 / 65535 / 4294967295 in both the zero-offset and the offset arm. -/
-example : ((IntBuf.pushAll {} [255, 0]).finalize none).map (·.ops) = .ok [.toI64 .u8] := by rfl
-example : ((IntBuf.pushAll {} [256, 0]).finalize none).map (·.ops) = .ok [.toI64 .u16] := by rfl
-example : ((IntBuf.pushAll {} [254, -1]).finalize none).map (·.ops) = .ok [.add .u8 (-1)] := by rfl
-example : ((IntBuf.pushAll {} [255, -1]).finalize none).map (·.ops) = .ok [.add .u16 (-1)] := by rfl
-
-/-! ## The present bitmap primitives (`bitvec.rs`, `init_present`, lazy creation in `push_nulls`) -/
+example : ∃ cb, ColBuf.applyAll demoConv {} [.nulls 7, .ints [1, 2], .nulls 8] = .ok cb ∧
+    cb.present = some [0x80, 0x01] := ⟨_, rfl, rfl⟩
 
 /-- `set(i)` makes bit `i` readable as set and changes no other bit — for every index, across byte
     boundaries and beyond the current length of the vector (which it grows). -/
@@ -90,12 +86,115 @@ theorem C01_bitmap_set_bytes (bm : List Nat) (h : Bytes bm) (i : Nat) : Bytes (s
 
 /-- the three ways `ColumnBuffer` creates a bitmap: all-NULL prefix (`vec![0; len/8]`, the partial byte is
     missing but reads as clear), all-present prefix, and the `0xff`-filled prefix of `push_nulls`: each
-    describes exactly the first `len` cells and has no bit at or beyond `len` — for EVERY `len`
-    (7/8/9/63/64/65 included). -/
+    describes exactly the first `len` cells and has no bit at or beyond `len` — for EVERY `len`. -/
 theorem C01_bitmap_init (len j : Nat) :
     isSet (initAllNull len) j = false ∧
     isSet (initAllPresent len) j = decide (j < len) ∧
     isSet (initOnNull len) j = decide (j < len) :=
   ⟨isSet_initAllNull len j, isSet_initAllPresent len j, isSet_initOnNull len j⟩
+
+/-! ## Integers: `IntColBuffer::push*` → `finalize` → `IntegerColumn::new_boxed` → decode program -/
+
+/-- Whatever i64 values were pushed (NULL slots hold the placeholder 0 and are masked by the present map
+    `null`), building the column does not panic — no overflow in the delta pass, in `interval`, in
+    `v - offset` — and the decode program returns exactly the pushed values, paired with the same present
+    map: every width (u8/u16/u32/i64), with and without offset, delta-coded or not, nullable or not. -/
+theorem C01_ints_roundtrip (dec : Section → Section) (xs : List Int) (null : Option (List Nat))
+    (hne : xs ≠ []) (hv : ∀ x ∈ xs, inI64 x) :
+    ∃ c, (IntBuf.pushAll {} xs).finalize null = .ok c ∧ decode dec c = .ok ⟨.i64 xs, null⟩ ∧
+      c.len = xs.length := by
+  obtain ⟨c, h1, h2, h3, _⟩ := intBuf_roundtrip dec xs null hne hv
+  exact ⟨c, h1, h2, h3⟩
+
+/-- the former defect witnesses (fixed by 4571b50 / 1bb63da upstream of this model) are now round trips:
+    `[-2, i64::MAX-1]` is no longer delta-coded, `[i64::MIN, 0]` no longer overflows in `interval`. -/
+example : ((IntBuf.pushAll {} [-2, 9223372036854775806]).finalize none).map (·.ops) = .ok [] := by rfl
+example : ((IntBuf.pushAll {} [-9223372036854775808, 0]).finalize none).map (·.ops) = .ok [] := by rfl
+/-- delta-coded, offset, nullable. -/
+example : ((IntBuf.pushAll {} [1000, 1001, 1003, 0, 1007, 1008, 1009, 1010, 1011, 1012, 1013]).finalize
+    (some [0xf7, 0x07])).map (·.ops) = .ok [.add .u16 (-1003), .delta .i64, .push 1, .nullable] := by rfl
+/-- The width ladder uses `<=` at 255 / 65535 / 4294967295 in both the zero-offset and the offset arm. -/
+example : ((IntBuf.pushAll {} [255, 0]).finalize none).map (·.ops) = .ok [.toI64 .u8] := by rfl
+example : ((IntBuf.pushAll {} [256, 0]).finalize none).map (·.ops) = .ok [.toI64 .u16] := by rfl
+example : ((IntBuf.pushAll {} [254, -1]).finalize none).map (·.ops) = .ok [.add .u8 (-1)] := by rfl
+example : ((IntBuf.pushAll {} [255, -1]).finalize none).map (·.ops) = .ok [.add .u16 (-1)] := by rfl
+
+/-! ## Strings -/
+
+/-- `PackedStrings` / `PackedBytes` and their iterators: every list of byte strings of every length
+    (254 / 255 / 256 / 510 … included: the `255`-continuation length prefix) reads back unchanged. -/
+theorem C01_packed_roundtrip (bs : List (List Nat)) : unpackAll (packAll bs) = .ok bs :=
+  unpackAll_packAll bs
+
+example : lenPrefix 254 = [254] ∧ lenPrefix 255 = [255, 0] ∧ lenPrefix 256 = [255, 1] ∧ lenPrefix 510 = [255, 255, 0] := by
+  refine ⟨?_, ?_, ?_, ?_⟩ <;> simp [lenPrefix]
+
+/-- hex packing: `hex::encode(_upper)(hex::decode(s)) = s` for every even-length string in the matching
+    single case (the only strings for which `StringColBuffer` keeps `lhex` / `uhex`). -/
+theorem C01_hex_roundtrip (upper : Bool) (s : Bytes) (hlen : s.length % 2 = 0)
+    (hall : ∀ c ∈ s, validHexByte upper c = true) : hexEncode upper (hexDecode s) = s :=
+  hexEncode_hexDecode upper s hlen hall
+
+/-- `fast_build_string_column` followed by the decode program, all three layouts (packed, hex-packed,
+    sorted dictionary with u8/u16/u32 indices), with or without a present map: the strings come back
+    byte-exact.  (`HexFlagsOk`: the hex flags say what `StringColBuffer::push` computes.) -/
+theorem C01_strings_roundtrip (dec : Section → Section) (strings : List Bytes) (lhex uhex : Bool)
+    (present : Option (List Nat))
+    (hlen : ∀ s ∈ strings, s.length < 2 ^ 24) (hflags : HexFlagsOk lhex uhex strings) :
+    decode dec (fastBuild strings strings.length lhex uhex (sumLen strings) present) =
+      .ok ⟨.str strings, present⟩ :=
+  fastBuild_decode dec strings lhex uhex present hlen hflags
+
+/-- the same through `StringColBuffer` (flags, byte count and the `IndexedPackedStrings` store as the buffer
+    itself maintains them). -/
+theorem C01_strbuf_roundtrip (dec : Section → Section) (ss : List Bytes) (present : Option (List Nat))
+    (h : ∀ s ∈ ss, s.length < 2 ^ 24) :
+    ∃ c, (StrBuf.pushAll {} ss).finalize present = .ok c ∧ decode dec c = .ok ⟨.str ss, present⟩ ∧
+      c.len = ss.length := by
+  obtain ⟨c, h1, h2, h3, _⟩ := strBuf_finalize_decode dec ss present h
+  exact ⟨c, h1, h2, h3⟩
+
+-- hex-packed: two distinct 12-digit lower-case strings → early exit (2/2 = 1 distinct), average length > 5.
+set_option maxRecDepth 20000 in
+example : ((StrBuf.pushAll {} [[100, 101, 97, 100, 98, 101, 101, 102, 48, 48, 49, 49],
+      [48, 48, 49, 49, 50, 50, 97, 97, 98, 98, 99, 99]]).finalize none).map (·.ops)
+    = .ok [.unhex false 24] := by rfl
+
+/-- every dictionary index is below the dictionary size and fits the index width chosen by
+    `dict_size <= u8::MAX` / `<= u16::MAX` / else u32 (so the `i as u8` / `as u16` / `as u32` casts are exact). -/
+theorem C01_dict_index_fits (strings : List Bytes) (hsz : (sortedUniq strings).length < 2 ^ 32) :
+    ∀ i ∈ strings.map (fun s => (sortedUniq strings).idxOf s),
+      i < (sortedUniq strings).length ∧ i < 2 ^ (dictWidth (sortedUniq strings).length).bits := by
+  intro i hi
+  have h1 := idxOf_lt (sortedUniq strings) strings (fun s hs => (mem_sortedUniq s strings).mpr hs) i hi
+  refine ⟨h1, ?_⟩
+  unfold dictWidth
+  split
+  · simp only [Width.bits]; omega
+  · split
+    · simp only [Width.bits]; omega
+    · simp only [Width.bits]; omega
+
+/-! ## Floats -/
+
+/-- `FloatColumn::new_boxed`: NULL slots are overwritten by the previous value, but what the client reads
+    is unchanged — bit patterns preserved at every non-null position, NULL elsewhere. -/
+theorem C01_float_bits (dec : Section → Section) (d : List Nat) (present : Option (List Nat)) :
+    ∃ d', decode dec (floatColumn d present) = .ok ⟨.f64 d', present⟩ ∧
+      cellsOf ⟨.f64 d', present⟩ = cellsOf ⟨.f64 d, present⟩ :=
+  (floatColumn_decode dec d present).1
+
+example : decodeCells id (floatColumn [0x8000000000000000, 0, 0x7ff8000000000001] (some [0b101])) =
+    .ok [.float 0x8000000000000000, .null, .float 0x7ff8000000000001] := by rfl
+
+/-! ## Compression -/
+
+/-- lz4 / pco in front of section 0 is transparent for every column whose program does not read section 0
+    again (true for every column the builders produce: `NoPush0` is part of each builder lemma). -/
+theorem C01_compress_transparent (cp : Compressor) (hcp : CompOk cp) (use : Bool) (c : Column)
+    (h : NoPush0 c.ops) : decode cp.dec (compress cp use c) = decode cp.dec c :=
+  compress_decode cp hcp use c h
+
+example : CompOk demoComp := demoComp_ok
 
 end LM.C01
